@@ -1,7 +1,7 @@
 (* C04 — Two-stage lazy indexing of dask arrays equals composed outer indexing, lazily.  Only statements here. *)
 From Coq Require Import ZArith List Bool Permutation.
-From KV Require Import Base.Sx Gen.Generated Model.DaskIdx Model.DaskJoint Model.DaskLazy Model.DaskGen Proofs.DaskIdxP
-  Proofs.DaskGenP Proofs.DaskSliceP Proofs.DaskReadsP Proofs.DaskTwoStageP Proofs.DaskJointP Proofs.DaskLazyP.
+From KV Require Import Base.Sx Gen.Generated Model.Chunks Model.DaskIdx Model.DaskJoint Model.DaskLazy Model.DaskGen
+  Model.DaskStore Proofs.DaskStoreP Proofs.DaskIdxP Proofs.DaskGenP Proofs.DaskSliceP Proofs.DaskReadsP Proofs.DaskTwoStageP Proofs.DaskJointP Proofs.DaskLazyP.
 Import ListNotations.
 Open Scope Z_scope.
 
@@ -374,3 +374,71 @@ Theorem C04_dataset_history_independent : forall (V K : Type) (getitem : V -> K 
   a1 = a2.
 Proof. exact z_spec_history_independent. Qed.
 Print Assumptions C04_dataset_history_independent.
+
+(* ---- the chunk store as a recorded history of get_chunk calls (Model/DaskStore.v; chunk grid = C07's Model/Chunks.v) ----
+   NOTHING IS READ UNTIL AN ELEMENT IS REQUESTED.  A history of public accesses: construction of indexers (over stored
+   arrays or nested), .shape / .dtype / .dataset / len / str / repr, and element requests indexer[k] / get([...], k).
+   The number of dask computations each access performs is COUNTED IN THE SOURCE by the translator (c04_meta_computes,
+   c04_get_computes); with those counts: a history without an element request leaves the store's log empty, however
+   many indexers were built and advertised; up to and including the first element request the log is the reads of that
+   request alone; accesses that are not element requests can be inserted / removed anywhere without changing the log. *)
+Theorem C04_lazy_until_requested :
+  (forall h, forallb (fun op => negb (s_is_fetch op)) h = true -> s_run h = Some []) /\
+  (forall pre l, forallb (fun op => negb (s_is_fetch op)) pre = true ->
+     s_run pre = Some [] /\ s_run (pre ++ [SFetch l]) = s_request_calls l) /\
+  (forall h, s_run h = s_run (filter s_is_fetch h)).
+Proof. exact (conj s_run_lazy (conj s_run_first_fetch s_run_filter)). Qed.
+Print Assumptions C04_lazy_until_requested.
+(* the whole log of any history = the reads of its element requests, request by request, in order (a repeated request
+   reads its chunks again: "each once" is per request, nothing is cached in between), and histories compose *)
+Theorem C04_store_log_is_requests :
+  (forall h, s_run h = option_map (@concat s_call) (d_sequence (map s_request_calls (s_fetches h)))) /\
+  (forall h1 h2, s_run (h1 ++ h2) =
+     match s_run h1, s_run h2 with Some a, Some b => Some (a ++ b) | _, _ => None end).
+Proof. exact (conj s_run_fetches s_run_app). Qed.
+Print Assumptions C04_store_log_is_requests.
+(* ONE REQUEST made of contiguous ranges (any number of stores, stored arrays, indexers per stored array, nesting depth =
+   stages, axes): the recorded calls are pairwise different (each once); a call is made iff it is wanted by some indexer
+   of the request: same store and array, and on every axis its slice is the extent of a stored chunk that meets the
+   composed interval of that indexer; and every call asks for a WHOLE block of the stored array's chunk grid
+   (Chunks.blocks), never a part of a chunk and nothing outside the grid. *)
+Theorem C04_request_reads_overlapping_chunks_once : forall l cs, (forall i, In i l -> j_pos i) ->
+  s_request_calls l = Some cs ->
+  NoDup cs /\
+  (forall c, In c cs <-> exists i, In i l /\ s_wanted c i) /\
+  (forall c, In c cs -> exists i, In i l /\ fst (fst c) = jr_store i /\ snd (fst c) = jr_name i /\
+                                  In (snd c) (blocks (s_chunks i))).
+Proof. exact s_request_spec. Qed.
+Print Assumptions C04_request_reads_overlapping_chunks_once.
+(* the read model answers exactly the requests whose stages are contiguous on every axis (unit-step slices, integers) *)
+Theorem C04_request_answered_iff_contiguous : forall l, (forall i, In i l -> j_pos i) ->
+  (s_request_calls l <> None <-> forallb j_contig l = true).
+Proof. exact s_request_some_iff. Qed.
+Print Assumptions C04_request_answered_iff_contiguous.
+(* the translated facts the history model stands on: no computing call in construction / dataset / shape / dtype / len /
+   str / repr / dask_getitem, exactly one (da.store) in get(); get()'s body and the chunk store's getter as modelled *)
+Theorem C04_store_skeleton : c04_meta_computes = 0 /\ c04_get_computes = 1 /\ c04_get_as_modelled = true /\
+  c04_getter_passes_slices = true /\ c04_shape_via_dataset = true /\ c04_dtype_via_dataset = true /\
+  c04_len_via_dataset = true /\ c04_getitem_via_dataset = true /\ c04_get_via_dataset = true.
+Proof. exact s_skeleton. Qed.
+Print Assumptions C04_store_skeleton.
+(* non-vacuity: two indexers of one stored array chunked ((2,1),(3,1,2)); four constructions / advertisements read
+   nothing; a[..] reads two chunks; .shape reads nothing; get([a, b]) reads the three chunks either needs, each once *)
+Theorem C04_store_example :
+  s_run (firstn 4 s_ex_hist) = Some [] /\
+  s_run (firstn 5 s_ex_hist) = Some [(1, 0, [(0, 2); (3, 4)]); (1, 0, [(0, 2); (4, 6)])] /\
+  s_run s_ex_hist = Some [(1, 0, [(0, 2); (3, 4)]); (1, 0, [(0, 2); (4, 6)]);
+                          (1, 0, [(0, 2); (0, 3)]); (1, 0, [(0, 2); (3, 4)]); (1, 0, [(0, 2); (4, 6)])] /\
+  (forall i, In i [s_ex_a; s_ex_b] -> j_pos i).
+Proof. exact s_example. Qed.
+Print Assumptions C04_store_example.
+
+(* SHAPE AND DTYPE ARE ADVERTISED WITHOUT DATA: for every indexer - any nesting depth, any first-stage indices, any chain
+   of transforms that derive their output shape/dtype from the input's shape/dtype (as every dask graph transform does;
+   the transforms of the correspondence qualify) - .shape/.dtype (and whether the construction is rejected) are those of
+   the same indexer over arrays whose contents are blanked out: no stored value can influence them, so they are known
+   before the first fetch.  (That they are the RIGHT shape/dtype is C04_two_stage_partial / C04_nesting_partial.) *)
+Theorem C04_advertised_without_data :
+  (forall i, d_ind_meta i -> d_adv i = d_adv (d_blank i)) /\ (forall c, d_tr_meta (d_transform c)).
+Proof. exact (conj d_adv_blank d_transform_meta). Qed.
+Print Assumptions C04_advertised_without_data.
